@@ -81,9 +81,10 @@ func CheckResult(mc *gen.MatchCase, vi *ref.VarInfo, res match.Bindings) (sigCla
 }
 
 func Run(cfg fw.Config, rec *fw.Rec) {
+	hostMatcher(cfg, rec)
 	n := cfg.Pick(400000, 12000000)
 	rec.Rule = "cases drawn by a seeded generator: pattern of the supported fragment + planted assignment -> message (exact / inflated with distractors / near-miss / independent random) + initial bindings (pre-bound to planted value, to a sub-structure, unrelated, inequality bounds); every returned binding set is checked by an independent containment checker; non-trivial = Match returned >=1 set and the pattern has >=1 variable; distinct by canonical JSON of (pattern,message,bindings)"
-	rec.Required = []string{"results_checked", "nested_array_with_prebound", "optional_and_property_variable", "inequality_twice", "anonymous_in_array", "depth_ge_4", "prebound_substructure", "repeated_variable", "inequality_violated_with_prebound_counterpart"}
+	rec.Required = []string{"host_matcher_without_inequalities_agrees_with_renaming", "host_matcher_without_inequalities_matched", "results_checked", "nested_array_with_prebound", "optional_and_property_variable", "inequality_twice", "anonymous_in_array", "depth_ge_4", "prebound_substructure", "repeated_variable", "inequality_violated_with_prebound_counterpart"}
 	rec.Assume = []string{"patterns stay inside the supported fragment; no string in messages or bound values starts with '?'", "bounded size: depth <= 5, width <= 4 (+ inflation)"}
 	opts := gen.Full
 	opts.SubPrebound = true
